@@ -28,6 +28,10 @@ def run(ctx, rep):
                    "algorithm option's flags", floor=3)
     rep.rule("H6", "both depolarising implementations compose the channel on the same side per kind (after the object; before it for POVMs)", floor=8)
     rep.rule("H7", "the four tomography classes accept the data-generation calls the simulation makes through the common slot", floor=11)
+    rep.rule("H8", "simulation settings and results that re-create or hand on their own configuration pass each field to the like-named "
+                   "parameter (copy(), to_simulation_setting(), generation settings): the setting that is stored / re-estimated from is the "
+                   "setting that was run", floor=20)
+    _h8(ctx, rep)
     rep.stats["seed_sinks"] = sorted("%s(%s)" % (q.split(".")[-1], p) for q, p in sd.sinks)[:60]
     _h1_h2(ctx, rep, sd)
     _h3(ctx, rep, sd)
@@ -319,3 +323,20 @@ def _h7(ctx, rep):
         ok = len(set(roles.values())) == 1
         rep.check(ok, "H7", classes[0].qualname + "." + meth, "sibling signatures of %s" % meth, "same parameter names (up to the object's name)",
                   "parameter names differ between siblings: %s" % roles, file=classes[0].module.relpath, line=classes[0].node.lineno)
+
+
+
+def _h8(ctx, rep):
+    from ..slots import keyword_field_agreement
+    n = 0
+    for f in ctx.ix.funcs.values():
+        if not f.module.name.startswith("quara.simulation") or f.self_name is None:
+            continue
+        for call, kw, attr, same, like in keyword_field_agreement(ctx, f):
+            con = "%s.%s: %s=self.%s" % (f.cls.name if f.cls else "?", f.name, kw, attr)
+            if same:
+                n += 1
+                rep.holds("H8", f, con, "like-named field", node=call)
+            elif like:
+                rep.violation("H8", f, con, "parameter `%s` is fed from self.%s although the object has its own `%s`: the re-created / derived object is "
+                              "configured differently from this one" % (kw, attr, kw), node=call)
